@@ -1021,6 +1021,23 @@ fn c17_roundtrip() {
             e.0 += 1;
         }
     }
+    // ... and every kind of community as a MEMBER of a list: in front of a route target, and between two (a value that is
+    // read with the wrong width shifts everything behind it)
+    let rt2: [u8; 8] = [0x00, 0x02, 0xfd, 0xe9, 0x00, 0x00, 0x00, 0x64];
+    let rt4: [u8; 8] = [0x02, 0x02, 0xfa, 0x56, 0xea, 0x01, 0x00, 0x07];
+    for b in extcom_universe().into_iter().filter(|b| b[2..] == [1, 2, 3, 4, 5, 6]) {
+        for list in [vec![b, rt2], vec![rt4, b, rt2]] {
+            n_attr += 1;
+            let bin: Vec<u8> = list.iter().flat_map(|x| x.iter().copied()).collect();
+            let a = Attribute::new_with_bin(Attribute::EXTENDED_COMMUNITY, bin).unwrap();
+            let r = rt_attr(&a);
+            if r != "same" {
+                let key = format!("{} type 0x{:02x} sub-type 0x{:02x} in a list of {}", r.split(':').next().unwrap_or(""), b[0], b[1], list.len());
+                let e = ec_bad.entry(key).or_insert((0, format!("{:02x?}", b)));
+                e.0 += 1;
+            }
+        }
+    }
     for (k, (n, first)) in ec_bad {
         report(&mut out, "extcom", &format!("{k} ({n} value patterns, first {first})"), "diff");
     }
